@@ -83,7 +83,7 @@ inductive Expr where
   | xor (a b : Expr)
   | xnor (a b : Expr)
   | mux (c a b : Expr)
-deriving Repr, Inhabited
+deriving Repr, Inhabited, DecidableEq
 
 inductive Conns where
   | positional (es : List Expr)
@@ -399,7 +399,7 @@ def parseNetlist (text : String) (bbs : List BBox) (ord : Ord) : E Circuit :=
 def moduleRegex (name : String) : String × Bool :=
   match Generated.regex_module with
   | some ((_, p, d) :: _) => (p.replace "NAME" name, d)
-  | _ => ("(module\\s+" ++ name ++ "\\s*\\(.*?\\);(.*?)endmodule)", true)
+  | _ => ("(module\\s+" ++ name ++ "\\s*\\(.*?\\);(.*?)\\bendmodule\\b)", true)
 
 def read (text name : String) (bbs : List BBox) (ord : Ord) : E Circuit :=
   match Regex.search (moduleRegex name).1 text (moduleRegex name).2 with
